@@ -36,8 +36,8 @@ func VerifC17(args []string) {
 	op, typ, form := args[0], args[1], args[4]
 	la, _ := strconv.Atoi(args[2])
 	lb, _ := strconv.Atoi(args[3])
-	overlap := builtinOperators["overlap"]
-	in := builtinOperators["in"]
+	overlap, _ := vfBuiltin("overlap")
+	in, _ := vfBuiltin("in")
 	vfAssert(overlap != nil && in != nil, "operators present")
 	if op == "overlap" {
 		var a, b Value
